@@ -44,6 +44,9 @@ func runTask(tk c18Task, data [][]byte, bits [][]bool) (res c18Result) {
 	}()
 	d, e := data[tk.Input], bits[tk.Input]
 	switch tk.Test {
+	case 17: // the rank test with another matrix shape the API accepts (Param = 100*M + Q); only purity is judged, not the value
+		m, q := tk.Param/100, tk.Param%100
+		res.v = append(res.v, v2(rn.MatrixRankProto(e, m, q)))
 	case 15, 16:
 		var rs = detect.Round12
 		if tk.Test == 16 {
@@ -136,7 +139,9 @@ func checkC18(c c18Case) (Outcome, error) {
 	out := Outcome{NonTrivial: sharing && len(distinctTests) >= 2, Classes: []string{fmt.Sprintf("goroutines<=%d", bucket(len(c.Tasks))), "gomaxprocs:" + itoa(c.Procs)}}
 	for _, tk := range c.Tasks {
 		name := "round"
-		if tk.Test < 15 {
+		if tk.Test == 17 {
+			name = "rank-other-shape"
+		} else if tk.Test < 15 {
 			name = tests[tk.Test].Key
 		}
 		out.Classes = append(out.Classes, "task:"+name)
@@ -207,14 +212,17 @@ func genC18(t *rapid.T) c18Case {
 	ni := rapid.IntRange(1, 4).Draw(t, "inputs")
 	for i := 0; i < ni; i++ {
 		nb := rapid.IntRange(1200, 4000).Draw(t, "nbytes")
-		c.Inputs = append(c.Inputs, gen.DrawSeq(t, nb*8, []string{"uniform", "uniform", "biased", "markov", "periodic", "sparse"}))
+		c.Inputs = append(c.Inputs, gen.DrawSeq(t, nb*8, []string{"uniform", "uniform", "biased", "markov", "periodic", "sparse", "bytewords"}))
 	}
 	nt := rapid.IntRange(2, 24).Draw(t, "goroutines")
 	if rapid.IntRange(0, 4).Draw(t, "many") == 0 {
 		nt = rapid.IntRange(25, 64).Draw(t, "goroutines")
 	}
 	for i := 0; i < nt; i++ {
-		tk := c18Task{Test: rapid.IntRange(0, 16).Draw(t, "test"), Input: rapid.IntRange(0, ni-1).Draw(t, "input"), Bytes: rapid.Bool().Draw(t, "bytes")}
+		tk := c18Task{Test: rapid.IntRange(0, 17).Draw(t, "test"), Input: rapid.IntRange(0, ni-1).Draw(t, "input"), Bytes: rapid.Bool().Draw(t, "bytes")}
+		if tk.Test == 17 {
+			tk.Param = rapid.SampledFrom([]int{3232, 1632, 3216, 808, 3132, 3231, 132}).Draw(t, "shape")
+		}
 		if tk.Test < 15 {
 			td := tests[tk.Test]
 			tk.Param = rapid.SampledFrom(td.Params).Draw(t, "param")
